@@ -1,0 +1,20 @@
+// Copyright 2025 The Go MCP SDK Authors. All rights reserved.
+// Use of this source code is governed by an MIT-style
+// license that can be found in the LICENSE file.
+
+//go:build verif
+
+// Contracts for the verification framework in /verif (comment-only; see /verif/DESIGN.md).
+// This file declares nothing and is compiled only with -tags verif.
+
+package jsonrpc
+
+// DecodeMessage is the exported face of the internal decoder: it hands back exactly what that decoder produced, so
+// callers in package mcp may rely on the decoder's contract - exactly one of message and error, only requests and
+// responses, never a typed nil (verified here against the body, using the contract of jsonrpc2.DecodeMessage).
+//@ func DecodeMessage [C09, C19, C01]
+//@   track jsonrpc2.DecodeMessage as inner
+//@   ensures @the-internal-decoder-decides calls(inner) == 1 && callArg(inner, 1, 0) == data && result.0 == callResult(inner, 1, 0) && result.1 == callResult(inner, 1, 1)
+//@   ensures @exactly-one-of result.0 == nil <==> result.1 != nil
+//@   ensures @only-requests-and-responses result.1 == nil ==> typeIs(result.0, *jsonrpc2.Request) || typeIs(result.0, *jsonrpc2.Response)
+//@   ensures @a-message-is-never-a-typed-nil (typeIs(result.0, *jsonrpc2.Request) ==> result.0.(*jsonrpc2.Request) != nil) && (typeIs(result.0, *jsonrpc2.Response) ==> result.0.(*jsonrpc2.Response) != nil)
